@@ -1,6 +1,7 @@
 """Configuration of ./check C05 (see pylib/props.py)."""
 CFG = dict(
         coq=["props/C05.vo", "props/Compose.vo"],
+        tie=["gen/Tie_Code_Cols.vo"],
         compose=['Compose_discard', 'Compose_merge_', 'Compose_collision', 'Compose_wide', 'Compose_keyless'],
         model_vo=["model/ColDiff.vo", "model/Merge.vo", "model/MergeSpec.vo"],
         extract="Ex_C05",
